@@ -29,6 +29,11 @@ ASSUMPTIONS = ["tolerance model: pips stops at feascond = max|g,h| / (1+max|x|) 
                "undeclared (NaN) limits are not checked; voltage limits are not checked in DC OPF (documented)",
                "xward, motors, asymmetric elements and ZIP loads are not generated (OPF documents no support for voltage dependent "
                "loads; the xward's internal voltage is not held by the OPF)",
+               "reproduction clause: the OPF dispatch includes the voltage angle at further ext_grids (only the first one is the angle "
+               "reference of the OPF) and further slack gens are PV generators; Q (and slack P) is compared per electrical node over "
+               "ext_grid+gen+dcline terminals (the split is not unique); skipped (labelled) for low-voltage solutions (min vm < 0.5 p.u., "
+               "possible when no voltage band is declared: ill-conditioned), when every live bus is a slack bus, and for >1 ext_grid "
+               "with calculate_voltage_angles=False (the power flow cannot take the angle as a setpoint)",
                "non-convergence and documented rejections are legal and counted"]
 
 FEASTOL = 5e-6
